@@ -424,6 +424,7 @@ fn cmd_plan_random(args: &[String]) {
 }
 
 fn main() {
+    std::panic::set_hook(Box::new(|_| {}));
     let args: Vec<String> = std::env::args().skip(1).collect();
     let rest = &args[1..];
     match args[0].as_str() {
